@@ -145,6 +145,10 @@ CLAIMS['C03'] = {
              'failed, unreserve invalid class, the counter assertions of Tree::put / LocalTree::put, bit-field setter bounds, No locals for class, Invalid class, the unwraps, '
              'the subtraction in reserve_or_steal, the zero divisor of the tree search and all lower roll-back sites are unreachable; a thread of the model can only die by an '
              'index outside the buffers (C18).'
+             ' Theorem conc_public_put_of_held_succeeds: the SECOND CLAUSE at the public interface under every interleaving - threads of a strict runner that ends at the first '
+             'LLFree::put returning an error (flag set) never finish with the flag set and never trap: a put of a held block can fail only in its argument check (put_LS, thread-local against '
+             'arbitrary interference), and by the global invariant every block in a thread\'s hands lies in the managed range, is aligned to its order (multi-huge orders: aligned search '
+             'positions of Lower::get, now part of the post-condition of every get) and has a valid order, so the check passes (Proofs/ConcPutOk.lean; put_failure_is_reported: the flag is not vacuous).'
              ' Theorem k2_online_race_panics is a SECOND REFUTATION (known finding K2): a kernel-evaluated schedule in which a free of a held frame into an offline tree is '
              'preempted between lower.put and trees.put while change_tree(Online) fetches the lower counters; the resuming free makes Tree::put assert free <= TREE_FRAMES '
              '(k2_sequential_ok: the same two calls in sequence are fine); replayed on the real code (findings/K2-online-race.txt, conc scenario kind 6 of every run).'
